@@ -143,6 +143,18 @@ func runMeta(t *testing.T, c *c11Case, viol *[]directViolation) {
 		tb.learn(c.Ops)
 		t0 := time.Now()
 		c.Obs = nil
+		// a view handed out is the caller's (the observation hooks shuffle and trim it): it is re-read after the later
+		// operations of the case and judged with its later content
+		type heldView struct {
+			at int
+			v  []common.CoordinatedBlockProposal
+		}
+		var held []heldView
+		defer func() {
+			for _, h := range held {
+				c.Obs[h.at].Out = tb.project(h.v)
+			}
+		}()
 		for _, o := range c.Ops {
 			at := int64(time.Since(t0))
 			switch o.K {
@@ -158,6 +170,7 @@ func runMeta(t *testing.T, c *c11Case, viol *[]directViolation) {
 			case "view":
 				v := ms.ViewProposals(types.UpkeepType(o.Typ))
 				c.Obs = append(c.Obs, c11Ev{Op: o, At: at, Out: tb.project(v)})
+				held = append(held, heldView{len(c.Obs) - 1, v})
 				continue
 			case "filter":
 				// the proposal filterer drops the payloads whose work id is pending; it views (and purges) inside
